@@ -7,11 +7,11 @@ Theorem C12_mem_no_expired_delivery : forall s c q topics now upd s' m,
   poll s c q Normal topics now upd = (s', PDelivered m) -> msg_overdue m now = false.
 Proof. exact no_expired_delivery. Qed.
 
-(* it ends in the dead-letter list *)
+(* it ends in the dead-letter list (and is not among the messages the poll hands out) *)
 Theorem C12_mem_expired_to_dead : forall s c q topics now upd m rest,
   take_first (in_queue q) (simple (pre_poll s q now upd)) = Some (m, rest) -> msg_overdue m now = true ->
-  let s1 := pre_poll s q now upd in
-  poll s c q Normal topics now upd = (mkS rest (delayed s1) (dead s ++ [m]) (processing s1) (gone s1) (stamp s1) (clk s1), PNone).
+  let s' := fst (poll s c q Normal topics now upd) in
+  In m (dead s') /\ ~ In m (map hd_msg (skipn (length (processing s)) (processing s'))).
 Proof. exact expired_to_dead. Qed.
 
 (* where it stays retrievable *)
@@ -20,11 +20,12 @@ Theorem C12_mem_dead_retrievable : forall s c q topics now upd m rest,
   snd (poll s c q DeadC topics now upd) = PDelivered m.
 Proof. exact dead_retrievable. Qed.
 
-(* a message within its time-to-live (or without one) is never dead-lettered by a consumer *)
+(* a message within its time-to-live (or without one) is never dead-lettered by a consumer: what a poll adds to the
+   dead-letter list are expired messages only, and only a normal poll adds any; nothing is removed *)
 Theorem C12_mem_live_not_dropped : forall s c q ct topics now upd,
   ct <> DeadC ->
   let s' := fst (poll s c q ct topics now upd) in
-  dead s' = dead s \/ (exists m, dead s' = dead s ++ [m] /\ msg_overdue m now = true /\ ct = Normal).
+  exists d, dead s' = dead s ++ d /\ Forall (fun m => msg_overdue m now = true) d /\ (ct <> Normal -> d = []).
 Proof. exact dead_only_grows_unless_dead_consumer. Qed.
 
 (* exactly at the expiry instant the message is still live *)
